@@ -102,6 +102,20 @@ def part_addresses(ctx, wt, m, n, thorough):
                                   {'op': 'address', 'wt': wt, 'm': m, 'n': n, 'holder': holder, 'order_of_supplied_keys': order, 'path': cosigner_path(wt, cos, chg, idx),
                                    'observed': got, 'expected (sorted keys, Lean)': exp[p][1]})
                     return
+            # the same through get_key(cosigner_id=...): the first unused key of that cosigner's chain is the key of index 0 of that chain,
+            # whichever cosigner the wallet itself is (an explicit cosigner 0 is cosigner 0)
+            for cos in ((0, 1) if wt == 'legacy' else (0,)):
+                ctx.evals += 1
+                ctx.count('address-by-get_key:%s' % wt)
+                try:
+                    got = w.get_key(cosigner_id=cos).address
+                except Exception as e:
+                    got = 'raise:%s:%s' % (type(e).__name__, str(e)[:60])
+                if got != exp[(cos, 0, 0)][1]:
+                    ctx.violation('a cosigner wallet hands out a different address for the first key of a cosigner',
+                                  {'op': 'address get_key', 'wt': wt, 'm': m, 'n': n, 'holder': holder, 'order_of_supplied_keys': order, 'own_cosigner_id': w.cosigner_id,
+                                   'asked_cosigner_id': cos, 'observed': got, 'expected (sorted keys, Lean)': exp[(cos, 0, 0)][1]})
+                    return
     ctx.nontrivial.add(hash(('addr', wt, m, n)))
 
 
